@@ -107,7 +107,7 @@ Proof.
   - exists [], s, []. split; [constructor|]. split; [reflexivity|]. split; assumption.
   - destruct (apply_op (p_world s) o) as [w'|] eqn:Ea.
     + destruct Hc as [Ho Hc].
-      destruct (block_sync P s o w' Hf M HF S (proj1 Ho) Ea) as (nit & s1 & obs1 & raws & Hrun & S1 & E1 & Hout & Hdel).
+      destruct (block_sync P s o w' Hf M HF S (c01_op_covered _ _ _ Ho) Ea) as (nit & s1 & obs1 & raws & Hrun & S1 & E1 & Hout & Hdel).
       destruct (replay_step C (pc_full P) (p_world s) (p_k s) (p_r s) o w' _ Hf Hm (ps_sync _ _ S) Ho Ea T)
         as (r' & k' & raws' & _ & _ & Hdel' & T').
       assert (Eev : delivered C (pc_full P) w' raws = delivered C (pc_full P) w' raws') by (unfold C in *; congruence).
